@@ -1,5 +1,5 @@
 """C11 — no safe operation yields an invalid hash object (the structural clauses; widest check)."""
-from ..rules import validate, tail, fields, eqord, vis, panic, parser, typestate, witness, normal, convert
+from ..rules import validate, tail, fields, eqord, vis, panic, parser, typestate, witness, normal, convert, casts
 
 EXPL = ("Decides: SA-VIS: the representation of all hash/target/generator types is private, no exported safe function hands out &mut "
         "into it, accumulating initialisers/views/encoders/_internal functions are not exported, exported *_unchecked are unsafe - so "
@@ -38,6 +38,7 @@ def run(ctx):
         ctx.guard("C11", "total-parse", lambda: parser.totality(ctx, prog))
         ctx.guard("C11", "fresh", lambda: parser.symbol_store(ctx, prog))
         ctx.guard("C11", "narrow", lambda: convert.narrowing(ctx, prog))
+        ctx.guard("C11", "casts", lambda: casts.census(ctx, prog, scope=None, floor=15))
     if ctx.tier == "thorough":
         ctx.cfg = "witness"
         ctx.guard("C11", "witness", lambda: witness.run(ctx, "witness", ["W1", "W2", "W3", "W4", "W6", "W7", "W8"]))
